@@ -160,6 +160,14 @@ theorem sort_result_fuel_independent (across back : Inst → Option Inst) (N : N
         ih (fun x hx => h x (by simp [hx]))]
   exact hgen _ hsub
 
+/-- the injectivity hypothesis of `sort_terminates` is what C02's invariant provides for a one-to-one
+    association: in every state satisfying `AInv` (every reachable state, C02 `inv_reachable`) the
+    "first partner across the target link" function, and likewise across the source link, is injective -/
+theorem links_injective_of_inv (a : AssocSpec) (l : ALinks) (hinv : AInv a l) :
+    (a.srcMany = false → ∀ x y c, (l.tgt x).head? = some c → (l.tgt y).head? = some c → x = y) ∧
+    (a.tgtMany = false → ∀ x y c, (l.src x).head? = some c → (l.src y).head? = some c → x = y) :=
+  ⟨fun h x y c => tgt_head_injective hinv h x y c, fun h x y c => src_head_injective hinv h x y c⟩
+
 /-! non-vacuity: two chains 1→2→3 and 7→8 (`back`), set in the order 8 3 7 1 2 -/
 def bk : Inst → Option Inst := fun x => if x = 1 then some 2 else if x = 2 then some 3 else if x = 7 then some 8 else none
 def ac : Inst → Option Inst := fun x => if x = 2 then some 1 else if x = 3 then some 2 else if x = 8 then some 7 else none
